@@ -155,6 +155,12 @@ class SkipOp(Exception):
     pass
 
 
+def _solver_unknown(out):
+    return out[0] == "exc" and (
+        "unknown result from z3" in str(out[1]) or type(out[1]).__name__ == "SolverReturnedUnknownResultError"
+    )
+
+
 _SIMSTATIC = []
 
 
@@ -1037,7 +1043,14 @@ class Session:
         self._add(rec["out"], r0, pid)
         if len(results) > 1:
             self._add(rec["out"] + "s", results[1], None)
-        if unsafe or pid in self.tainted:
+        def _proc_args(a):
+            if isinstance(a, list):
+                for x in a:
+                    yield from _proc_args(x)
+            elif isinstance(a, dict) and a.get("t") == "proc":
+                yield a["p"]
+
+        if unsafe or pid in self.tainted or any(q in self.tainted for q in _proc_args(rec["args"])):
             self.tainted.add(rec["out"])
         if self.checks.get("fwd"):
             self.check_fwd(name, pid, rec["out"])
@@ -1075,6 +1088,12 @@ class Session:
                 extra = {"pred": self.replace_pred(pid_in, pid_out)}
             elif name == "resize_dim":
                 extra = {"pred": "fold" if self.cur_kw.get("fold") else ""}
+            elif name in ("delete_config", "write_config", "bind_config"):
+                has = any(
+                    isinstance(st, LoopIR.Call) and any(isinstance(e, LoopIR.ReadConfig) for e in st.args)
+                    for _, st in stmt_paths(self.procs[pid_in]._loopir_proc)
+                )
+                extra = {"pred": "config-field-passed-as-call-argument" if has else ""}
             elif name in ("fission", "autofission"):
                 extra = {"pred": self.fission_pred(pid_in)}
                 if name == "autofission" and not extra["pred"]:
@@ -1215,7 +1234,7 @@ class Session:
         for hop, src in enumerate(hops):
             vs = check_forwarding(
                 self.procs[src], self.procs[pid_out], self.probes, max_stmts=120,
-                want_gaps=(hop == 0), want_blocks=(hop == 0),
+                want_gaps=(hop == 0), want_blocks=(hop == 0), chain=[self.procs[q] for q in hops[:hop]],
             )
             if vs and hop > 0:
                 # only what this step introduced: cursors whose forwarding to the
@@ -1321,14 +1340,19 @@ class Session:
         except Exception as e:
             out3 = ("exc", e)
         s3 = self.outcome_sig(out3)
-        if s3[0] == "exc" and ref_sig[0] == "exc":
+        if _solver_unknown(ref) or _solver_unknown(out3):
+            # z3 answered `unknown` (incomplete on div/mod queries, and not reproducibly so):
+            # the outcome of an external incomplete prover, not of the call under test
+            self.probes.hit("retry_skipped_solver_unknown")
+        elif s3[0] == "exc" and ref_sig[0] == "exc":
             # both raise: same outcome as far as the property goes (the class may
             # legitimately differ when z3 answers `unknown` on a hard query)
             self.probes.hit("retry_same" if s3 == ref_sig else "retry_exc_class_differs")
         elif s3 != ref_sig:
             self.violate(
                 "C07", "retry-after-fault-differs",
-                f"{name}: fault-free outcome {ref_sig[0]} but after an injected {kind} the same call gives {s3[0]} "
+                f"{name}: fault-free outcome {ref_sig[0]} {(type(ref[1]).__name__ + ': ' + str(ref[1])[:160]) if ref[0]=='exc' else ''} "
+                f"but after an injected {kind} the same call gives {s3[0]} "
                 f"{s3[1] if s3[0]=='exc' else ''}", name, {"fault": kind[:2]},
             )
         else:
